@@ -365,3 +365,19 @@ Section Main.
     - exact Hc.
   Qed.
 End Main.
+
+(* ====================================================================== *)
+(* K4: generic data that uses the names the kind/version probe reads       *)
+(* ====================================================================== *)
+Definition k4_claims : val :=
+  setp sch_generic ["nats"] (VMap (Some [("tags", VAny (Some (JStr "x"))); ("version", VAny (Some (JInt 2)))]))
+       (zero_val sch_generic).
+Lemma k4_refuted : exists (v : val) (j : json),
+  has_type sch_generic v = true /\ enc sch_generic v = Some j /\
+  (exists d, load_v2 KGeneric j = Some d /\ canon d = canon v) /\
+  forall (jparse : string -> option json) (s : string), jparse s = Some j -> p_parse_ident jparse s = None.
+Proof.
+  exists k4_claims. eexists. split; [vm_compute; reflexivity|]. split; [vm_compute; reflexivity|].
+  split; [eexists; split; vm_compute; reflexivity|].
+  intros jparse s Hs. unfold p_parse_ident. rewrite Hs. vm_compute. reflexivity.
+Qed.
